@@ -324,6 +324,8 @@ namespace smt
             {
                 for (auto it1 = it0 + 1; it1 != ls.cend(); ++it1)
                 {
+                    if (*it1 == *it0)
+                        continue; // a repetition of the true literal..
                     if (value(*it1) == True || *it1 == !p)
                         return FALSE_lit; // the exact-one cannot be satisfied..
                     else if (value(*it1) != False && *it1 != p)
@@ -333,7 +335,11 @@ namespace smt
                         ls[j++] = p;
                     }
                 }
-                break;
+                // one of the literals is already true: the exact-one holds iff all the others are false..
+                ls.resize(j);
+                for (auto &l : ls)
+                    l = !l;
+                return new_conj(std::move(ls));
             }
             else if (value(*it0) != False && *it0 != p)
             { // we need to include this literal in the exact-one..
